@@ -20,10 +20,10 @@ func TestMain(m *testing.M) { core.Main(m) }
 var boundaryVals = []uint64{0, 1, 22, 23, 24, 25, 254, 255, 256, 257, 65534, 65535, 65536, 65537, 1<<32 - 1, 1 << 32, 1<<32 + 1, 1<<63 - 1, 1 << 63, 1<<63 + 1, ^uint64(0) - 1, ^uint64(0)}
 
 type sent struct {
-	major int
-	val   uint64 // integer value / count
-	data  []byte // string content
-	off   int
+	major    int
+	val      uint64 // integer value / count
+	data     []byte // string content
+	off      int
 	shortest bool
 }
 
